@@ -37,7 +37,7 @@ def campaign(tier, seed):
             raise ToolError("harness failed: " + out[-2000:])
         hstat = json.loads(out.strip().splitlines()[-1])
         tv_out = st.path("tv.out")
-        tv = run_tlc("ParseTrace", os.path.join(SPEC, "ParseTrace.cfg"), tv_out, workers=4, env={"TRACE": trace}, timeout=3000)
+        tv = run_tlc_trace("ParseTrace", os.path.join(SPEC, "ParseTrace.cfg"), trace, tv_out, workers=3, chunk=30000, par=5, timeout=3000)
         if not tv["ok"]:
             raise ToolError("ParseTrace did not complete: %s" % tv["error"])
         recs = []
